@@ -215,7 +215,13 @@ class Eval:
             what = s[2]
             kind = ("upper-bound placement exposes a movable cell with its centre outside the rows' bounding box"
                     if what.startswith("OUTSIDE") else "exposed/returned coordinate overflowed or not finite")
-            self.violations.append((kind + ": " + what, l, what))
+            nocap = len(s) >= 6 and s[5].startswith("NOCAP")
+            # finding F28: with no free capacity the density grid collapses to the origin and every cell is exposed at (0,0).  Matched
+            # only for a circuit without free capacity AND an excursion (as long as known_findings.json lists F28 as `known`)
+            if nocap and what.startswith("OUTSIDE") and getattr(self, "ctx", None) is not None and self.ctx.known_finding("F28"):
+                self.stats["gp_no_capacity_runs_matched_F28"] = self.stats.get("gp_no_capacity_runs_matched_F28", 0) + 1
+            else:
+                self.violations.append((kind + ": " + what, l, what))
         if frame != 1:
             self.violations.append(("global placement wrote an orientation or moved a fixed cell", l, r[:200]))
         if l in self.coinc:
@@ -597,12 +603,12 @@ def gen_cases(ctx, harness):
     lines = common.corpus("C06", ("GP ", "GR ", "SP "))
     ncorpus = len(lines)
     if ctx.quick:
-        plan = [("gp", ctx.seed, 260, 0), ("gpc", ctx.seed + 31, 120, None), ("grid", ctx.seed, 3000, None), ("spread", ctx.seed, 3000, None)]
+        plan = [("gp", ctx.seed, 260, 0), ("gpc", ctx.seed + 31, 120, None), ("gpn", ctx.seed + 57, 60, 0), ("grid", ctx.seed, 3000, None), ("spread", ctx.seed, 3000, None)]
     else:
         plan = []
         for k in range(3):
             s = ctx.seed + 1000 * k
-            plan += [("gp", s, 1500, 0), ("gp", s + 7, 700, 1), ("gpc", s + 31, 1200, None), ("grid", s, 30000, None), ("spread", s, 30000, None)]
+            plan += [("gp", s, 1500, 0), ("gp", s + 7, 700, 1), ("gpc", s + 31, 1200, None), ("gpn", s + 57, 500, 0), ("gpn", s + 58, 200, 1), ("grid", s, 30000, None), ("spread", s, 30000, None)]
     coinc = set()
     for what, s, n, lvl in plan:
         new = common.harness_gen(harness, [what, s, n] + ([lvl] if lvl is not None else []))
@@ -641,7 +647,7 @@ def run(ctx):
     harness = common.build_harness("global")
     driver = common.build_driver("global")
     lines, ncorpus, coinc = gen_cases(ctx, harness)
-    ev = Eval(harness, driver)
+    ev = Eval(harness, driver); ev.ctx = ctx
     ev.coinc = coinc
     ev.run(lines)
     nvm, vmbad = vm_crosscheck(harness, driver, ctx.seed)
@@ -717,7 +723,7 @@ def replay(ctx, path):
         case = f21_case()
     harness = common.build_harness("global")
     driver = common.build_driver("global")
-    ev = Eval(harness, driver)
+    ev = Eval(harness, driver); ev.ctx = ctx
     impl = ev.run([case])
     print("case :", case[:300])
     print("impl :", impl[0][:300])
